@@ -508,6 +508,7 @@ func scenariosC17() []*c17Scenario {
 		{name: "c17/size1/high-high-low", poolSize: 1, subs: [][]c17Sub{{H("a")}, {H("b")}, {L("c")}}, ticks: 2, bound: bound},
 		{name: "c17/size2/two-lows-one-high", poolSize: 2, subs: [][]c17Sub{{L("a")}, {L("b")}, {H("c")}}, ticks: 2, bound: bound},
 		{name: "c17/size2/two-lows-two-highs", poolSize: 2, subs: [][]c17Sub{{L("a"), L("a")}, {L("b")}, {H("c"), H("d")}}, ticks: 3, bound: bound},
+		{name: "c17/size1/cached-resubmission-into-full-pool", poolSize: 1, subs: [][]c17Sub{{H("a"), H("a")}, {L("b")}}, ticks: 3, bound: bound + 1},
 		{name: "c17/size1/fatal-stop", poolSize: 1, subs: [][]c17Sub{{H("a"), H("b")}, {L("c")}}, ticks: 3, faults: true, bound: bound},
 		{name: "c17/size2/cancel", poolSize: 2, subs: [][]c17Sub{{H("a"), H("b")}, {L("c")}}, ticks: 3, cancel: true, bound: bound},
 		{name: "c17/size2/direct-cancel", poolSize: 2, subs: [][]c17Sub{{H("a"), H("b")}, {L("c")}}, direct: 2, cancel: true, bound: bound},
